@@ -343,7 +343,8 @@ func lexComment(l *lexer) stateFn {
 		return lexEOF
 	}
 
-	for unicode.IsSpace(rune(l.input[l.pos+i-1])) {
+	// leave trailing blanks, tabs and the CR of a CRLF to the caller, which skips them
+	for strings.IndexByte(" \t\r", l.input[l.pos+i-1]) >= 0 {
 		i -= 1
 	}
 	l.pos += i
